@@ -22,7 +22,11 @@ From JV Require Import Lib.Base.
 
 Inductive kind := KInt | KStr.
 Record copt := { co_name : str; co_callable : bool }.
-Record pdecl := { pd_cfg : bool; pd_opts : list (str * kind); pd_req : list str; pd_cls : list copt }.
+(* pd_dc: the parser has the option d : Optional[Data], Data a dataclass with fields a : int = 0, b : int = 0,
+   added from a signature (add_class_arguments), so that the action's sub_add_kwargs is the non-empty dict that
+   adapt_typehints receives by reference *)
+Record pdecl := { pd_cfg : bool; pd_opts : list (str * kind); pd_req : list str; pd_cls : list copt; pd_dc : bool }.
+Definition dv := (str * str)%type.   (* a value of d: fields a, b as decimal literals *)
 Record decl := { d_root : pdecl; d_subreq : bool; d_subs : list (str * pdecl) }.
 
 Inductive tok :=
@@ -37,8 +41,8 @@ Inductive opk :=
 | PString (items : list (str * str))
 | PEnv (items : list (str * str))
 | GetDefaults
-| Dump (corrupt skip_none skip_default skip_validation : bool)
-| Validate (corrupt : bool)
+| Dump (d : option dv) (corrupt skip_none skip_default skip_validation : bool)   (* d: the value of d in cfg *)
+| Validate (d : option dv) (corrupt : bool)
 | Instantiate.
 Record op := { op_p : nat; op_k : opk }.
 
@@ -46,36 +50,39 @@ Record op := { op_p : nat; op_k : opk }.
    fx_pc  fixes/C09-print-config-pending.patch   parse_args drops a left-over request in a `finally`
    fx_sh  fixes/C09-lazy-print-shtab-key.patch   the lazily added --print_shtab action is no configuration key
                                                  (filter_default_actions hides it, like --help / --print_config)
-   fx_hs  fixes/C09-class-help-skip-shared.patch the class help works on a copy of sub_add_kwargs *)
-Record fixes := { fx_pc : bool; fx_sh : bool; fx_hs : bool }.
-Definition pinned : fixes := {| fx_pc := false; fx_sh := false; fx_hs := false |}.
-Definition repaired : fixes := {| fx_pc := true; fx_sh := true; fx_hs := true |}.
+   fx_hs  fixes/C09-class-help-skip-shared.patch the class help works on a copy of sub_add_kwargs
+   fx_dd  fixes/C09-dataclass-default-carried.patch  the dataclass branch of adapt_typehints passes prev_val as
+                                                 default through a copy instead of writing it into the action's dict *)
+Record fixes := { fx_pc : bool; fx_sh : bool; fx_hs : bool; fx_dd : bool }.
+Definition pinned : fixes := {| fx_pc := false; fx_sh := false; fx_hs := false; fx_dd := false |}.
+Definition repaired : fixes := {| fx_pc := true; fx_sh := true; fx_hs := true; fx_dd := true |}.
 
 (* ---- carried state ---- *)
 Record flags := { f_sn : bool; f_sd : bool; f_yc : bool }.
 Inductive pending := PNone | PFull (key : option str) (fl : flags) | PBroken (fl : flags).
 Inductive label := LP (i : nat) (sub : str) | LInner.
-Record pstate := { ps_pending : pending; ps_args : list (str * list tok); ps_shtab : bool }.
+(* ps_ddef: sub_add_kwargs["default"] of the action of d (written at _typehints.py:1052-1054) *)
+Record pstate := { ps_pending : pending; ps_args : list (str * list tok); ps_shtab : bool; ps_ddef : option dv }.
 Record state := { st_ps : list pstate;
                   st_pk : option (option bool * bool);
                   st_sap : option label;
                   st_dk : option (bool * bool);
                   st_help_skip : bool }.
 
-Definition ps0 := {| ps_pending := PNone; ps_args := []; ps_shtab := false |}.
+Definition ps0 := {| ps_pending := PNone; ps_args := []; ps_shtab := false; ps_ddef := None |}.
 Definition init (n : nat) : state :=
   {| st_ps := repeat ps0 n; st_pk := None; st_sap := None; st_dk := None; st_help_skip := false |}.
 
 (* ---- outcomes: the path a call took ---- *)
 Inductive errk := EPre | EStaleKey | EBroken | EPrintFail | EPost | EHelpArgs | EUnknown (k : str).
 Inductive out :=
-| OOk (shtab_key : bool)
+| OOk (shtab_key : bool) (d : option dv)    (* d: the value of d in the result *)
 | OErr (e : errk)
 | OExc
 | OExit2
 | OHelp (sub : str)
 | OHelpCls (skip : bool)
-| OPrint (key : option str) (fl : flags) (nested : bool).
+| OPrint (key : option str) (fl : flags) (nested : bool) (d : option dv).   (* d: the value of d printed *)
 
 (* ---- strings ---- *)
 Definition s_help : str := [104;101;108;112]%N.
@@ -88,6 +95,11 @@ Definition s_SubB : str := [83;117;98;66]%N.
 Definition s_a : str := [97]%N.
 Definition s_b : str := [98]%N.
 Definition s_c : str := [99]%N.
+Definition s_d : str := [100]%N.
+Definition s_z : str := [122]%N.
+Definition s_0 : str := [48]%N.
+Definition s_Fac : str := [99;48;57;95;99;108;97;115;115;101;115;46;70;97;99]%N.   (* c09_classes.Fac *)
+Definition dv0 : dv := (s_0, s_0).
 Definition s_comments : str := [99;111;109;109;101;110;116;115]%N.
 Definition s_skip_default : str := [115;107;105;112;95;100;101;102;97;117;108;116]%N.
 Definition s_skip_null : str := [115;107;105;112;95;110;117;108;108]%N.
@@ -125,16 +137,26 @@ Fixpoint aset {A} (k : str) (v : A) (l : list (str * A)) : list (str * A) :=
 Definition find_cls (n : str) (pd : pdecl) : option copt :=
   find (fun c => str_eqb (co_name c) n) (pd_cls pd).
 
-(* the component classes of the harness (tie/impl/c09_classes.py) *)
-Definition class_table : list (str * list (str * kind)) :=
-  [ (s_Base, [(s_a, KInt)]);
-    (s_SubA, [(s_a, KInt); (s_c, KInt)]);
-    (s_SubB, [(s_a, KInt); (s_b, KStr)]) ].
-(* skip = the first positional parameter is supplied by the caller (Callable[[int], Base]) *)
-Definition class_params (skip : bool) (c : str) : option (list (str * kind)) :=
+(* the component classes of the harness (tie/impl/c09_classes.py): name, is it a Base, __init__ parameters.
+   Fac is a callable class that is no Base: fine for Callable[[int], Base] (all its parameters, nothing skipped),
+   rejected for Base and by the class help *)
+Definition class_table : list (str * (bool * list (str * kind))) :=
+  [ (s_Base, (true, [(s_a, KInt)]));
+    (s_SubA, (true, [(s_a, KInt); (s_c, KInt)]));
+    (s_SubB, (true, [(s_a, KInt); (s_b, KStr)]));
+    (s_Fac, (false, [(s_a, KInt); (s_z, KInt)])) ].
+(* parameters settable through an option of type Base (callable = false) or Callable[[int], Base] (true): for a
+   Base the first positional parameter is supplied by the caller and skipped *)
+Definition cls_for_opt (callable : bool) (c : str) : option (list (str * kind)) :=
   match alookup c class_table with
   | None => None
-  | Some ps => Some (if skip then tl ps else ps)
+  | Some (sub, ps) => if sub then Some (if callable then tl ps else ps) else if callable then Some ps else None
+  end.
+(* the class help only knows Bases *)
+Definition cls_for_help (skip : bool) (c : str) : option (list (str * kind)) :=
+  match alookup c class_table with
+  | Some (true, ps) => Some (if skip then tl ps else ps)
+  | _ => None
   end.
 
 (* print_config flags: "", comments, skip_default, skip_null separated by commas (_actions.py:258-265) *)
@@ -150,36 +172,96 @@ Fixpoint parse_flags (fs : list str) (acc : flags) : option flags :=
   end.
 Definition no_flags := {| f_sn := false; f_sd := false; f_yc := false |}.
 
+Definition key_is_d (k : str) : bool := str_eqb (fst (split_dot k)) s_d.
+Definition items_mention_d (items : list (str * str)) : bool := existsb (fun kv => key_is_d (fst kv)) items.
+
 (* ---- what one parse has seen so far (local to a call) ---- *)
 Record ictx := { ic_sel : list (str * str);   (* class option -> selected class *)
                  ic_given : list str;          (* dotted names that received a value *)
                  ic_mention : list str;        (* sub-commands addressed through dotted keys *)
                  ic_shtab_key : bool;          (* the key print_shtab was accepted *)
-                 ic_unknown : option str }.          (* a dict-like source had a key no action claims: kept in the
+                 ic_unknown : option str;      (* a dict-like source had a key no action claims: kept in the
                                                   namespace, rejected by check_values ("Key ... is not expected") *)
-Definition ic0 := {| ic_sel := []; ic_given := []; ic_mention := []; ic_shtab_key := false; ic_unknown := None |}.
+                 ic_d : option dv;             (* the value of d in the namespace of this call *)
+                 ic_dw : option dv }.          (* the last value this call wrote into sub_add_kwargs["default"] *)
+Definition ic0 := {| ic_sel := []; ic_given := []; ic_mention := []; ic_shtab_key := false; ic_unknown := None;
+                     ic_d := None; ic_dw := None |}.
 
 Definition is_unk (c : ictx) : bool := match ic_unknown c with Some _ => true | None => false end.
 
-Inductive ires := IOk (c : ictx) | IBad | IUnknown.
-
+Definition with_sel (x : list (str * str)) (c : ictx) : ictx :=
+  {| ic_sel := x; ic_given := ic_given c; ic_mention := ic_mention c; ic_shtab_key := ic_shtab_key c;
+     ic_unknown := ic_unknown c; ic_d := ic_d c; ic_dw := ic_dw c |}.
 Definition give (n : str) (c : ictx) : ictx :=
-  {| ic_sel := ic_sel c; ic_given := n :: ic_given c; ic_mention := ic_mention c; ic_shtab_key := ic_shtab_key c; ic_unknown := ic_unknown c |}.
+  {| ic_sel := ic_sel c; ic_given := n :: ic_given c; ic_mention := ic_mention c; ic_shtab_key := ic_shtab_key c;
+     ic_unknown := ic_unknown c; ic_d := ic_d c; ic_dw := ic_dw c |}.
+Definition mention (h : str) (c : ictx) : ictx :=
+  {| ic_sel := ic_sel c; ic_given := ic_given c; ic_mention := h :: ic_mention c; ic_shtab_key := ic_shtab_key c;
+     ic_unknown := ic_unknown c; ic_d := ic_d c; ic_dw := ic_dw c |}.
+Definition with_shtab_key (c : ictx) : ictx :=
+  {| ic_sel := ic_sel c; ic_given := ic_given c; ic_mention := ic_mention c; ic_shtab_key := true;
+     ic_unknown := ic_unknown c; ic_d := ic_d c; ic_dw := ic_dw c |}.
+Definition with_unknown (k : str) (c : ictx) : ictx :=
+  {| ic_sel := ic_sel c; ic_given := ic_given c; ic_mention := ic_mention c; ic_shtab_key := ic_shtab_key c;
+     ic_unknown := match ic_unknown c with Some x => Some x | None => Some k end; ic_d := ic_d c; ic_dw := ic_dw c |}.
+Definition with_d (x : option dv) (c : ictx) : ictx :=
+  {| ic_sel := ic_sel c; ic_given := ic_given c; ic_mention := ic_mention c; ic_shtab_key := ic_shtab_key c;
+     ic_unknown := ic_unknown c; ic_d := x; ic_dw := ic_dw c |}.
+Definition with_dw (x : option dv) (c : ictx) : ictx :=
+  {| ic_sel := ic_sel c; ic_given := ic_given c; ic_mention := ic_mention c; ic_shtab_key := ic_shtab_key c;
+     ic_unknown := ic_unknown c; ic_d := ic_d c; ic_dw := x |}.
 
-(* one key/value against one parser's declaration (no sub-commands): _check_value_key / ActionTypeHint *)
-Definition apply_local (pd : pdecl) (prefix : str) (c : ictx) (k v : str) : ires :=
+(* IBad carries the context at the point of failure: what the call wrote before failing stays written *)
+Inductive ires := IOk (c : ictx) | IBad (c : ictx) | IUnknown.
+
+(* a value for d (one field from argv, or a mapping with one or both fields from a dict-like source), adapted by the
+   dataclass branch of adapt_typehints (_typehints.py:1050-1066) with prev_val = the value of d in the namespace:
+     pinned    prev_val a namespace: sub_add_kwargs["default"] := prev_val, WRITTEN into the action's own dict;
+               the fields not given come from sub_add_kwargs["default"] — whoever wrote it, dd0 = as carried in —
+               else from the dataclass;
+     repaired  the default travels in a copy: fields not given come from prev_val, else from the dataclass.
+   bad: the value names a field Data does not have. *)
+Definition d_assign (fx : fixes) (dd0 : option dv) (c : ictx) (fa fb : option str) (bad : bool) : ires :=
+  let c1 := match ic_d c with
+            | Some cur => if fx_dd fx then c else with_dw (Some cur) c
+            | None => c
+            end in
+  let base := match ic_d c with
+              | Some cur => cur
+              | None => if fx_dd fx then dv0 else match dd0 with Some w => w | None => dv0 end
+              end in
+  let ok f := match f with Some x => is_int x | None => true end in
+  let upd (f : option str) (x : str) := match f with Some y => y | None => x end in
+  if bad || negb (ok fa && ok fb) then IBad c1
+  else IOk (with_d (Some (upd fa (fst base), upd fb (snd base))) c1).
+Definition opt_field (f : str) : option str := match f with [] => None | _ => Some f end.
+
+(* one key/value against one parser's declaration (no sub-commands): _check_value_key / ActionTypeHint.
+   dd0 = sub_add_kwargs["default"] of d as carried into the call: READ only by d_assign *)
+Definition apply_local (fx : fixes) (dd0 : option dv) (pd : pdecl) (prefix : str) (c : ictx) (k v : str) : ires :=
   let '(h, rest) := split_dot k in
+  if pd_dc pd && str_eqb h s_d then
+    match rest with
+    | None => match split_comma v [] with           (* dict-like source: d = "<a>,<b>", empty = field not given *)
+              | [fa; fb] => d_assign fx dd0 c (opt_field fa) (opt_field fb) false
+              | _ => IBad c
+              end
+    | Some param =>                                  (* argv: --d.<field>=<v> *)
+        if str_eqb param s_a then d_assign fx dd0 c (Some v) None false
+        else if str_eqb param s_b then d_assign fx dd0 c None (Some v) false
+        else d_assign fx dd0 c None None true
+    end
+  else
   match rest with
   | None =>
       match alookup h (pd_opts pd) with
-      | Some kd => if val_ok kd v then IOk (give (prefix ++ h) c) else IBad
+      | Some kd => if val_ok kd v then IOk (give (prefix ++ h) c) else IBad c
       | None =>
           match find_cls h pd with
           | Some co =>
-              match class_params (co_callable co) v with
-              | Some _ => IOk {| ic_sel := aset h v (ic_sel c); ic_given := ic_given c;
-                                 ic_mention := ic_mention c; ic_shtab_key := ic_shtab_key c; ic_unknown := ic_unknown c |}
-              | None => IBad
+              match cls_for_opt (co_callable co) v with
+              | Some _ => IOk (with_sel (aset h v (ic_sel c)) c)
+              | None => IBad c
               end
           | None => IUnknown
           end
@@ -188,16 +270,13 @@ Definition apply_local (pd : pdecl) (prefix : str) (c : ictx) (k v : str) : ires
       match find_cls h pd with
       | Some co =>
           let cl := match alookup h (ic_sel c) with Some x => x | None => s_Base end in
-          match class_params (co_callable co) cl with
+          match cls_for_opt (co_callable co) cl with
           | Some ps =>
               match alookup param ps with
-              | Some kd => if val_ok kd v
-                           then IOk {| ic_sel := aset h cl (ic_sel c); ic_given := ic_given c;
-                                       ic_mention := ic_mention c; ic_shtab_key := ic_shtab_key c; ic_unknown := ic_unknown c |}
-                           else IBad
-              | None => IBad
+              | Some kd => if val_ok kd v then IOk (with_sel (aset h cl (ic_sel c)) c) else IBad c
+              | None => IBad c
               end
-          | None => IBad
+          | None => IBad c
           end
       | None => IUnknown
       end
@@ -205,23 +284,18 @@ Definition apply_local (pd : pdecl) (prefix : str) (c : ictx) (k v : str) : ires
 
 (* one key/value of a dict-like source (object, string, config content, environment) against the
    root declaration; READS shtab: once --print_shtab has been added, print_shtab is a real key. *)
-Definition apply_item (D : decl) (shtab : bool) (c : ictx) (k v : str) : ires :=
+Definition apply_item (fx : fixes) (dd0 : option dv) (D : decl) (shtab : bool) (c : ictx) (k v : str) : ires :=
   if str_eqb k s_print_shtab then
-    (if shtab then (if str_eqb v s_bash
-                    then IOk {| ic_sel := ic_sel c; ic_given := ic_given c; ic_mention := ic_mention c;
-                                ic_shtab_key := true; ic_unknown := ic_unknown c |}
-                    else IBad)
+    (if shtab then (if str_eqb v s_bash then IOk (with_shtab_key c) else IBad c)
      else IUnknown)
   else
-  match apply_local (d_root D) [] c k v with
+  match apply_local fx dd0 (d_root D) [] c k v with
   | IUnknown =>
       let '(h, rest) := split_dot k in
       match rest, alookup h (d_subs D) with
       | Some k', Some spd =>
-          match apply_local spd (h ++ [46%N]) c k' v with
-          | IOk c' => IOk {| ic_sel := ic_sel c'; ic_given := ic_given c';
-                             ic_mention := h :: ic_mention c'; ic_shtab_key := ic_shtab_key c';
-                             ic_unknown := ic_unknown c' |}
+          match apply_local fx None spd (h ++ [46%N]) c k' v with
+          | IOk c' => IOk (mention h c')
           | r => r
           end
       | _, _ => IUnknown
@@ -232,20 +306,19 @@ Definition apply_item (D : decl) (shtab : bool) (c : ictx) (k v : str) : ires :=
 (* what happens to a key nobody claims: argv-like strictness is handled by the scans; dict-like sources keep
    it and fail validation later (UKeep); the environment never sees it (UIgnore) *)
 Inductive umode := UKeep | UIgnore.
+Inductive ares := AOk (c : ictx) | AFail (c : ictx).   (* AFail: the context when an item was rejected *)
 Fixpoint apply_items (f : ictx -> str -> str -> ires) (u : umode) (c : ictx) (items : list (str * str))
-  : option ictx :=
+  : ares :=
   match items with
-  | [] => Some c
+  | [] => AOk c
   | (k, v) :: r =>
       match f c k v with
       | IOk c' => apply_items f u c' r
-      | IBad => None
+      | IBad c' => AFail c'
       | IUnknown =>
           match u with
           | UIgnore => apply_items f u c r
-          | UKeep => apply_items f u {| ic_sel := ic_sel c; ic_given := ic_given c; ic_mention := ic_mention c;
-                                        ic_shtab_key := ic_shtab_key c;
-                                        ic_unknown := match ic_unknown c with Some x => Some x | None => Some k end |} r
+          | UKeep => apply_items f u (with_unknown k c) r
           end
       end
   end.
@@ -274,8 +347,22 @@ Definition req_ok (D : decl) (sel : option str) (c : ictx) : bool :=
 Definition final_out (D : decl) (sel : option str) (c : ictx) : out :=
   match ic_unknown c with
   | Some k => OErr (EUnknown k)
-  | None => if req_ok D sel c then OOk (ic_shtab_key c) else OErr EPost
+  | None => if req_ok D sel c then OOk (ic_shtab_key c) (ic_d c) else OErr EPost
   end.
+(* did the call get as far as re-checking the values (check_values reaches d: no unknown key before it) *)
+Definition validated (o : out) : bool :=
+  match o with OOk _ _ | OErr EPost => true | _ => false end.
+(* the final validation re-checks d *)
+Definition revalidates_d (c : ictx) (o : out) : bool :=
+  validated o && match ic_d c with Some _ => true | None => false end.
+(* sub_add_kwargs["default"] of d after a call that ended in context c: the value of d re-checked by the final
+   validation (prev_val = the value itself), else the last write of the call, else what was there *)
+Definition dd_after (fx : fixes) (old : option dv) (c : ictx) (o : out) : option dv :=
+  if fx_dd fx then old
+  else match (if validated o then ic_d c else None) with
+       | Some w => Some w
+       | None => match ic_dw c with Some w => Some w | None => old end
+       end.
 
 Definition has_default (pd : pdecl) : bool :=
   existsb (fun o => negb (mem_str (fst o) (pd_req pd))) (pd_opts pd).
@@ -289,6 +376,9 @@ Definition dk_after (pd : pdecl) (skip_validation skip_none skip_default : bool)
 (* process-wide variables as threaded through one call *)
 Record cvars := { cv_pk : option (option bool * bool); cv_sap : option label; cv_dk : option (bool * bool) }.
 
+(* adapting a value of d runs the throw-away class parser of Data: subclass_arg_parser is left pointing at it *)
+Definition sap_inner (cv : cvars) : cvars := {| cv_pk := cv_pk cv; cv_sap := Some LInner; cv_dk := cv_dk cv |}.
+
 (* print_config_if_requested (_actions.py:280-290) on the ROOT parser; `has x` says whether cfg has a
    namespace for sub-command x, `sel` whether cfg selects a sub-command.  None = nothing requested, go on.
    The dump of the whole configuration (key None) fails with a KeyError when a sub-command is required and
@@ -297,7 +387,8 @@ Record cvars := { cv_pk : option (option bool * bool); cv_sap : option label; cv
    attribute is still there.  The same happens when cfg holds a key no action claims (unk): dump validates
    and check_values raises NSKeyError, which lenient_check does not swallow. *)
 Definition consume (D : decl) (pend : pending) (has : str -> bool) (sel : bool) (unk : bool) (nested : bool)
-  (empty : bool) (cv : cvars) : option (out * pending * cvars) :=
+  (empty : bool) (dp : option dv) (cv : cvars) : option (out * pending * cvars) :=
+  (* dp: the value of d in the configuration dumped (only the whole configuration shows it) *)
   (* empty: the configuration dumped has no entry at all (a --cfg={} consumed inside parse_args): nothing is
      serialised, dump_kwargs stays as it was *)
   let dk_after pd sv sn sd old := if empty then old else dk_after pd sv sn sd old in
@@ -309,7 +400,7 @@ Definition consume (D : decl) (pend : pending) (has : str -> bool) (sel : bool) 
       | Some x =>
           if has x then
             let pd := match alookup x (d_subs D) with Some spd => spd | None => d_root D end in
-            Some (OPrint key fl nested, PNone,
+            Some (OPrint key fl nested None, PNone,
                   {| cv_pk := cv_pk cv; cv_sap := cv_sap cv; cv_dk := dk_after pd false (f_sn fl) (f_sd fl) (cv_dk cv) |})
           else Some (OErr EStaleKey, PBroken fl, cv)              (* cfg[key] raises after both pops *)
       | None =>
@@ -319,7 +410,7 @@ Definition consume (D : decl) (pend : pending) (has : str -> bool) (sel : bool) 
             Some (OErr EPrintFail, PBroken fl,
                   {| cv_pk := cv_pk cv; cv_sap := cv_sap cv; cv_dk := dk_after (d_root D) false (f_sn fl) false (cv_dk cv) |})
           else
-            Some (OPrint key fl nested, PNone,
+            Some (OPrint key fl nested dp, PNone,
                   {| cv_pk := cv_pk cv; cv_sap := cv_sap cv;
                      cv_dk := dk_after (d_root D) false (f_sn fl) (f_sd fl) (cv_dk cv) |})
       end
@@ -328,7 +419,7 @@ Definition consume (D : decl) (pend : pending) (has : str -> bool) (sel : bool) 
 (* scan of a sub-command parser's argv (sub-parser.parse_args with _skip_validation) *)
 Inductive sres := SGo | SStop (o : out).
 
-Fixpoint scan_sub (name : str) (pd : pdecl) (toks : list tok) (c : ictx) (unk : bool) (pend : pending)
+Fixpoint scan_sub (fx : fixes) (name : str) (pd : pdecl) (toks : list tok) (c : ictx) (unk : bool) (pend : pending)
   : sres * ictx * bool * pending :=
   match toks with
   | [] => (SGo, c, unk, pend)
@@ -337,28 +428,28 @@ Fixpoint scan_sub (name : str) (pd : pdecl) (toks : list tok) (c : ictx) (unk : 
       | TFlag n =>
           if str_eqb n s_help then (SStop (OHelp name), c, unk, pend)
           else if str_eqb n s_print_config && pd_cfg pd
-               then scan_sub name pd r c unk (PFull (Some name) no_flags)
-               else scan_sub name pd r c true pend
+               then scan_sub fx name pd r c unk (PFull (Some name) no_flags)
+               else scan_sub fx name pd r c true pend
       | TOpt n v =>
           if str_eqb n s_print_config && pd_cfg pd then
             match parse_flags (split_comma v []) no_flags with
-            | Some fl => scan_sub name pd r c unk (PFull (Some name) fl)
+            | Some fl => scan_sub fx name pd r c unk (PFull (Some name) fl)
             | None => (SStop (OErr EPre), c, unk, pend)
             end
           else
-            match apply_local pd (name ++ [46%N]) c n v with
-            | IOk c' => scan_sub name pd r c' unk pend
-            | IBad => (SStop (OErr EPre), c, unk, pend)
-            | IUnknown => scan_sub name pd r c true pend
+            match apply_local fx None pd (name ++ [46%N]) c n v with
+            | IOk c' => scan_sub fx name pd r c' unk pend
+            | IBad c' => (SStop (OErr EPre), c', unk, pend)
+            | IUnknown => scan_sub fx name pd r c true pend
             end
       | TCfg items =>
           if pd_cfg pd then
-            match apply_items (apply_local pd (name ++ [46%N])) UKeep c items with
-            | Some c' => scan_sub name pd r c' unk pend
-            | None => (SStop (OErr EPre), c, unk, pend)
+            match apply_items (apply_local fx None pd (name ++ [46%N])) UKeep c items with
+            | AOk c' => scan_sub fx name pd r c' unk pend
+            | AFail c' => (SStop (OErr EPre), c', unk, pend)
             end
-          else scan_sub name pd r c true pend
-      | TPos _ => scan_sub name pd r c true pend
+          else scan_sub fx name pd r c true pend
+      | TPos _ => scan_sub fx name pd r c true pend
       end
   end.
 
@@ -385,10 +476,11 @@ Definition help_rest_ok (cname : str) (ps : list (str * kind)) (rest : list tok)
 Record scan_out := { so_res : sres; so_c : ictx; so_unk : bool; so_pend : pending; so_chosen : option str;
                      so_cv : cvars; so_subargs : option (str * list tok); so_hs : bool }.
 
-Fixpoint scan_root (fx : fixes) (D : decl) (i : nat) (hs : bool) (toks : list tok) (c : ictx) (unk : bool)
-  (pend : pending) (cv : cvars) : scan_out :=
-  let stop o := {| so_res := SStop o; so_c := c; so_unk := unk; so_pend := pend; so_chosen := None;
-                   so_cv := cv; so_subargs := None; so_hs := hs |} in
+Fixpoint scan_root (fx : fixes) (dd0 : option dv) (D : decl) (i : nat) (hs : bool) (toks : list tok) (c : ictx)
+  (unk : bool) (pend : pending) (cv : cvars) : scan_out :=
+  let stopc cx cvx o := {| so_res := SStop o; so_c := cx; so_unk := unk; so_pend := pend; so_chosen := None;
+                           so_cv := cvx; so_subargs := None; so_hs := hs |} in
+  let stop o := stopc c cv o in
   match toks with
   | [] => {| so_res := SGo; so_c := c; so_unk := unk; so_pend := pend; so_chosen := None;
              so_cv := cv; so_subargs := None; so_hs := hs |}
@@ -398,12 +490,12 @@ Fixpoint scan_root (fx : fixes) (D : decl) (i : nat) (hs : bool) (toks : list to
       | TFlag n =>
           if str_eqb n s_help then stop (OHelp [])
           else if str_eqb n s_print_config && pd_cfg pd
-               then scan_root fx D i hs r c unk (PFull None no_flags) cv
-               else scan_root fx D i hs r c true pend cv
+               then scan_root fx dd0 D i hs r c unk (PFull None no_flags) cv
+               else scan_root fx dd0 D i hs r c true pend cv
       | TOpt n v =>
           if str_eqb n s_print_config && pd_cfg pd then
             match parse_flags (split_comma v []) no_flags with
-            | Some fl => scan_root fx D i hs r c unk (PFull None fl) cv
+            | Some fl => scan_root fx dd0 D i hs r c unk (PFull None fl) cv
             | None => stop (OErr EPre)
             end
           else
@@ -413,7 +505,7 @@ Fixpoint scan_root (fx : fixes) (D : decl) (i : nat) (hs : bool) (toks : list to
                  there; repaired: works on a copy, nothing shared is read or written *)
               let sk := if fx_hs fx then co_callable co else hs || co_callable co in
               let hs' := if fx_hs fx then hs else sk in
-              match class_params sk v with
+              match cls_for_help sk v with
               | None => stop (OErr EPre)
               | Some ps =>
                   match r with
@@ -428,10 +520,11 @@ Fixpoint scan_root (fx : fixes) (D : decl) (i : nat) (hs : bool) (toks : list to
                   end
               end
           | _, _ =>
-              match apply_local pd [] c n v with
-              | IOk c' => scan_root fx D i hs r c' unk pend cv
-              | IBad => stop (OErr EPre)
-              | IUnknown => scan_root fx D i hs r c true pend cv
+              let cvd := if pd_dc pd && key_is_d n then sap_inner cv else cv in
+              match apply_local fx dd0 pd [] c n v with
+              | IOk c' => scan_root fx dd0 D i hs r c' unk pend cvd
+              | IBad c' => stopc c' cvd (OErr EPre)
+              | IUnknown => scan_root fx dd0 D i hs r c true pend cv
               end
           end
       | TCfg items =>
@@ -440,25 +533,28 @@ Fixpoint scan_root (fx : fixes) (D : decl) (i : nat) (hs : bool) (toks : list to
                -> _parse_common -> print_config_if_requested: the request is consumed HERE, with the
                content of the config alone.  Inside parse_args --print_shtab exists already (repaired: it is
                no configuration key). *)
-            match apply_items (apply_item D (negb (fx_sh fx))) UKeep c items with
-            | None => stop (OErr EPre)
-            | Some c' =>
-                let hc := match apply_items (apply_item D (negb (fx_sh fx))) UKeep ic0 items with
-                          | Some x => x | None => ic0 end in
+            let cv := if pd_dc pd && items_mention_d items then sap_inner cv else cv in
+            match apply_items (apply_item fx dd0 D (negb (fx_sh fx))) UKeep c items with
+            | AFail c' => stopc c' cv (OErr EPre)
+            | AOk c' =>
+                let hc := match apply_items (apply_item fx dd0 D (negb (fx_sh fx))) UKeep ic0 items with
+                          | AOk x => x | AFail _ => ic0 end in
                 let here := ic_mention hc in
+                (* the content is loaded with prev_cfg = the namespace so far: the d printed is the merged one *)
                 match consume D pend (fun x => mem_str x here)
                               (match here with [] => false | _ => true end) (is_unk hc) true
-                              (match items with [] => true | _ => false end) cv with
+                              (match items with [] => true | _ => false end)
+                              (match ic_d hc with Some _ => ic_d c' | None => None end) cv with
                 | Some (o, pend', cv') =>
-                    {| so_res := SStop o; so_c := c; so_unk := unk; so_pend := pend'; so_chosen := None;
+                    {| so_res := SStop o; so_c := c'; so_unk := unk; so_pend := pend'; so_chosen := None;
                        so_cv := cv'; so_subargs := None; so_hs := hs |}
-                | None => scan_root fx D i hs r c' unk pend cv
+                | None => scan_root fx dd0 D i hs r c' unk pend cv
                 end
             end
-          else scan_root fx D i hs r c true pend cv
+          else scan_root fx dd0 D i hs r c true pend cv
       | TPos n =>
           match d_subs D with
-          | [] => scan_root fx D i hs r c true pend cv
+          | [] => scan_root fx dd0 D i hs r c true pend cv
           | _ =>
               match alookup n (d_subs D) with
               | None => stop (OErr EPre)                      (* invalid choice *)
@@ -466,7 +562,7 @@ Fixpoint scan_root (fx : fixes) (D : decl) (i : nat) (hs : bool) (toks : list to
                   (* _ActionSubCommands.__call__: READS parse_kwargs (set by this very call),
                      sub-parser.parse_args sets args, parse_kwargs, subclass_arg_parser *)
                   let cv' := {| cv_pk := cv_pk cv; cv_sap := Some (LP i n); cv_dk := cv_dk cv |} in
-                  let '(res, c', unk', pend') := scan_sub n spd r c false pend in
+                  let '(res, c', unk', pend') := scan_sub fx n spd r c false pend in
                   let res' := match res with
                               | SGo => if unk' then SStop (OErr EPre) else SGo
                               | x => x end in
@@ -478,13 +574,14 @@ Fixpoint scan_root (fx : fixes) (D : decl) (i : nat) (hs : bool) (toks : list to
   end.
 
 (* ---- what a call reads and writes ---- *)
-Record view := { v_pending : pending; v_shtab : bool; v_help_skip : bool;
+Record view := { v_pending : pending; v_shtab : bool; v_help_skip : bool; v_ddef : option dv;
                  v_cv : cvars }.   (* v_cv: carried in, never read before written (see the header) *)
-Record writes := { w_pending : pending; w_shtab : bool; w_help_skip : bool; w_cv : cvars;
+Record writes := { w_pending : pending; w_shtab : bool; w_help_skip : bool; w_ddef : option dv; w_cv : cvars;
                    w_args : list (str * list tok) }.   (* argv to store: "" = root *)
 
 Definition keep (v : view) : writes :=
-  {| w_pending := v_pending v; w_shtab := v_shtab v; w_help_skip := v_help_skip v; w_cv := v_cv v; w_args := [] |}.
+  {| w_pending := v_pending v; w_shtab := v_shtab v; w_help_skip := v_help_skip v; w_ddef := v_ddef v;
+     w_cv := v_cv v; w_args := [] |}.
 
 (* _parse_common for the root parser after the sources have been merged *)
 Definition parse_common (D : decl) (pend : pending) (chosen : option str) (c : ictx) (cv : cvars)
@@ -492,25 +589,35 @@ Definition parse_common (D : decl) (pend : pending) (chosen : option str) (c : i
   let sel := selected D chosen c in
   match d_subs D, sel with
   | _ :: _, None => if d_subreq D then (OErr EPre, pend, cv) else
-      match consume D pend (fun _ => false) false (is_unk c) false false cv with
+      match consume D pend (fun _ => false) false (is_unk c) false false (ic_d c) cv with
       | Some r => r
       | None => (final_out D sel c, pend, cv)
       end
   | _, _ =>
       match consume D pend (fun x => match sel with Some y => str_eqb x y | None => false end)
-                    (match sel with Some _ => true | None => false end) (is_unk c) false false cv with
+                    (match sel with Some _ => true | None => false end) (is_unk c) false false (ic_d c) cv with
       | Some r => r
       | None => (final_out D sel c, pend, cv)
       end
   end.
 
 Definition exec_items (fx : fixes) (D : decl) (v : view) (unknown_ok : umode) (items : list (str * str)) : out * writes :=
-  match apply_items (apply_item D (v_shtab v && negb (fx_sh fx))) unknown_ok ic0 items with
-  | None => (OErr EPre, keep v)
-  | Some c =>
-      let '(o, pend, cv) := parse_common D (v_pending v) None c (v_cv v) in
-      (o, {| w_pending := pend; w_shtab := v_shtab v; w_help_skip := v_help_skip v; w_cv := cv; w_args := [] |})
+  match apply_items (apply_item fx (v_ddef v) D (v_shtab v && negb (fx_sh fx))) unknown_ok ic0 items with
+  | AFail c =>
+      (OErr EPre, {| w_pending := v_pending v; w_shtab := v_shtab v; w_help_skip := v_help_skip v;
+                     w_ddef := dd_after fx (v_ddef v) c (OErr EPre);
+                     w_cv := if pd_dc (d_root D) && items_mention_d items then sap_inner (v_cv v) else v_cv v;
+                     w_args := [] |})
+  | AOk c =>
+      let '(o, pend, cv) := parse_common D (v_pending v) None c
+                              (if pd_dc (d_root D) && items_mention_d items then sap_inner (v_cv v) else v_cv v) in
+      (o, {| w_pending := pend; w_shtab := v_shtab v; w_help_skip := v_help_skip v;
+             w_ddef := dd_after fx (v_ddef v) c o; w_cv := if revalidates_d c o then sap_inner cv else cv;
+             w_args := [] |})
   end.
+(* validate(cfg) and the validation inside dump(cfg) re-check d with prev_val = its own value *)
+Definition dd_checked (fx : fixes) (old d : option dv) : option dv :=
+  if fx_dd fx then old else match d with Some w => Some w | None => old end.
 
 (* fx_pc: whatever way parse_args is left, no request survives it (on a normal return there is none anyway:
    _parse_common has consumed it).  fx = pinned is the pinned tree. *)
@@ -519,11 +626,12 @@ Definition exec (fx : fixes) (D : decl) (i : nat) (v : view) (k : opk) : out * w
   | PArgs argv =>
       (* handle_completions adds --print_shtab; self.args = argv; parse_kwargs and subclass_arg_parser set *)
       let cv0 := {| cv_pk := Some (None, true); cv_sap := Some (LP i []); cv_dk := cv_dk (v_cv v) |} in
-      let so := scan_root fx D i (v_help_skip v) argv ic0 false (v_pending v) cv0 in
+      let so := scan_root fx (v_ddef v) D i (v_help_skip v) argv ic0 false (v_pending v) cv0 in
       let args := ([], argv) :: match so_subargs so with Some sa => [sa] | None => [] end in
       let fin o pend cv :=
-        (o, {| w_pending := if fx_pc fx then PNone else pend; w_shtab := true; w_help_skip := so_hs so; w_cv := cv;
-               w_args := args |}) in
+        (o, {| w_pending := if fx_pc fx then PNone else pend; w_shtab := true; w_help_skip := so_hs so;
+               w_ddef := dd_after fx (v_ddef v) (so_c so) o;
+               w_cv := if revalidates_d (so_c so) o then sap_inner cv else cv; w_args := args |}) in
       match so_res so with
       | SStop o => fin o (so_pend so) (so_cv so)
       | SGo =>
@@ -535,17 +643,21 @@ Definition exec (fx : fixes) (D : decl) (i : nat) (v : view) (k : opk) : out * w
   | PObject items => exec_items fx D v UKeep items
   | PString items => exec_items fx D v UKeep items
   | PEnv items => exec_items fx D v UIgnore items
-  | GetDefaults => (OOk false, keep v)
-  | Dump corrupt sn sd sv =>
+  | GetDefaults => (OOk false None, keep v)
+  | Dump d corrupt sn sd sv =>
       let cvd f := {| cv_pk := cv_pk (v_cv v); cv_sap := cv_sap (v_cv v); cv_dk := f (cv_dk (v_cv v)) |} in
-      let w cv := {| w_pending := v_pending v; w_shtab := v_shtab v; w_help_skip := v_help_skip v; w_cv := cv;
-                     w_args := [] |} in
-      if corrupt && negb sv then (OExc, keep v)
+      let w cv := {| w_pending := v_pending v; w_shtab := v_shtab v; w_help_skip := v_help_skip v;
+                     w_ddef := if sv then v_ddef v else dd_checked fx (v_ddef v) d; w_cv := cv; w_args := [] |} in
+      if corrupt && negb sv then (OExc, keep v)     (* k is re-checked (and rejected) before d *)
       else if sd && d_subreq D && negb (match d_subs D with [] => true | _ => false end)
            then (OExc, w (cvd (dk_after (d_root D) sv sn false)))     (* KeyError from the defaults, see consume *)
-           else (OOk false, w (cvd (dk_after (d_root D) sv sn sd)))
-  | Validate corrupt => ((if corrupt then OExc else OOk false), keep v)
-  | Instantiate => (OOk false, keep v)
+           else (OOk false None, w (cvd (dk_after (d_root D) sv sn sd)))
+  | Validate d corrupt =>
+      if corrupt then (OExc, keep v)
+      else (OOk false None,
+            {| w_pending := v_pending v; w_shtab := v_shtab v; w_help_skip := v_help_skip v;
+               w_ddef := dd_checked fx (v_ddef v) d; w_cv := v_cv v; w_args := [] |})
+  | Instantiate => (OOk false None, keep v)
   end.
 
 (* ---- the state machine ---- *)
@@ -560,19 +672,19 @@ Fixpoint set_nth {A} (i : nat) (x : A) (l : list A) : list A :=
 
 Definition view_of (s : state) (i : nat) : view :=
   let ps := get_ps s i in
-  {| v_pending := ps_pending ps; v_shtab := ps_shtab ps; v_help_skip := st_help_skip s;
+  {| v_pending := ps_pending ps; v_shtab := ps_shtab ps; v_help_skip := st_help_skip s; v_ddef := ps_ddef ps;
      v_cv := {| cv_pk := st_pk s; cv_sap := st_sap s; cv_dk := st_dk s |} |}.
 
 Definition commit (s : state) (i : nat) (w : writes) : state :=
   let ps := get_ps s i in
   {| st_ps := set_nth i {| ps_pending := w_pending w;
                            ps_args := fold_left (fun a kv => aset (fst kv) (snd kv) a) (w_args w) (ps_args ps);
-                           ps_shtab := w_shtab w |} (st_ps s);
+                           ps_shtab := w_shtab w; ps_ddef := w_ddef w |} (st_ps s);
      st_pk := cv_pk (w_cv w); st_sap := cv_sap (w_cv w); st_dk := cv_dk (w_cv w);
      st_help_skip := w_help_skip w |}.
 
 Definition decl_of (Ds : list decl) (i : nat) : decl :=
-  nth i Ds {| d_root := {| pd_cfg := false; pd_opts := []; pd_req := []; pd_cls := [] |};
+  nth i Ds {| d_root := {| pd_cfg := false; pd_opts := []; pd_req := []; pd_cls := []; pd_dc := false |};
               d_subreq := false; d_subs := [] |}.
 
 Definition step (fx : fixes) (Ds : list decl) (s : state) (o : op) : state * out :=
@@ -592,6 +704,15 @@ Definition op_mentions_shtab (k : opk) : bool :=
   | PObject items | PString items | PEnv items => items_mention_shtab items
   | _ => false
   end.
+Definition tok_mentions_d (t : tok) : bool :=
+  match t with TOpt n _ => key_is_d n | TCfg items => items_mention_d items | _ => false end.
+Definition op_mentions_d (k : opk) : bool :=
+  match k with
+  | PArgs argv => existsb tok_mentions_d argv
+  | PObject items | PString items | PEnv items => items_mention_d items
+  | _ => false
+  end.
+Definition is_some {A} (x : option A) : bool := match x with Some _ => true | None => false end.
 Definition tok_is_clshelp (t : tok) : bool :=
   match t with TOpt n _ => match is_suffix_help n with Some _ => true | None => false end | _ => false end.
 Definition op_has_clshelp (k : opk) : bool :=
@@ -599,10 +720,12 @@ Definition op_has_clshelp (k : opk) : bool :=
 
 (* 0 = inside the guard; 1 = a print_config request is pending on the target parser;
    2 = the call names the key print_shtab on a parser that has acquired --print_shtab (and the key is read);
-   3 = a class help is requested after a Callable-typed class help wrote the class-level dict (and it is read) *)
+   3 = a class help is requested after a Callable-typed class help wrote the class-level dict (and it is read);
+   4 = the call gives (part of) a value for d on a parser whose d action holds a stored default (and it is read) *)
 Definition guard_class (fx : fixes) (s : state) (o : op) : N :=
   if negb (is_pnone (ps_pending (get_ps s (op_p o)))) then 1%N
   else if negb (fx_sh fx) && ps_shtab (get_ps s (op_p o)) && op_mentions_shtab (op_k o) then 2%N
   else if negb (fx_hs fx) && st_help_skip s && op_has_clshelp (op_k o) then 3%N
+  else if negb (fx_dd fx) && is_some (ps_ddef (get_ps s (op_p o))) && op_mentions_d (op_k o) then 4%N
   else 0%N.
 Definition in_guard (fx : fixes) (s : state) (o : op) : bool := N.eqb (guard_class fx s o) 0.
